@@ -192,3 +192,44 @@ def install():
 
 
 Recorder.last_cleanup = None
+
+
+_installed_sym = False
+
+
+def install_symbolic():
+    """Same event stream for AurelCoreSymbolic.__getitem__ (no clean-up, no age table)."""
+    global _installed_sym
+    if _installed_sym:
+        return
+    import aurel.coresymbolic as cs
+    C = cs.AurelCoreSymbolic
+    orig = C.__getitem__
+
+    def traced_getitem(self, key):
+        rec = getattr(self, "_vrec", None)
+        if rec is None or not rec.active:
+            return orig(self, key)
+        if dict.__contains__(self.data, key):
+            rec.events.append({"ev": "hit", "key": key, "depth": rec.depth})
+            return orig(self, key)
+        func = getattr(type(self), key, None)
+        if func is None or not hasattr(func, "__code__") or func.__code__.co_argcount != 1:
+            return orig(self, key)
+        d = rec.depth
+        rec.events.append({"ev": "enter", "key": key, "depth": d})
+        rec.stack.append(key)
+        try:
+            v = orig(self, key)
+        except BaseException as ex:
+            del rec.stack[d:]
+            rec.events.append({"ev": "raise", "key": key, "depth": d, "exc": type(ex).__name__, "in_cleanup": False})
+            raise
+        del rec.stack[d:]
+        rec.count = getattr(rec, "count", 0) + 1
+        rec.events.append({"ev": "exit", "key": key, "depth": d, "count": rec.count, "evicted": [], "aged_removed": [],
+                           "cleanup": False, "ndata": dict.__len__(self.data), "naged": rec.count, "stored": True})
+        return v
+
+    C.__getitem__ = traced_getitem
+    _installed_sym = True
